@@ -130,6 +130,18 @@ CHECKS = {
          "proves untouched addresses unchanged.",
          "Trusted: Model in pyprops/c19.py. A range a-b must show at least a..b-1. ebpf disasm lines are excluded "
          "(range tiling defect, C08). A session that exceeds 20 s is inconclusive, not a violation.", "DESIGN.md 3/C19"),
+ "C20": ("hypothesis+nvserve",
+         "Hypothesis call graphs over generated ELF32 objects / ar archives (own writer) vs a transitive-closure placement model",
+         "Generated-input search: Hypothesis draws call graphs over 2..8 functions in 1..3 ELF32 relocatable objects "
+         "written by an own generator (R_MIPS_26 relocations, junk sections with look-alike names, both byte orders), "
+         "given as .o files or as an ar archive with a symbol table, and a mips program at a generated .org calling a "
+         "subset. From the hex image and the listing symbols of the sanitized CLI run: every function of the transitive "
+         "closure is present once at its symbol address with the object's bytes, every jal (program and imported code) "
+         "targets the final address, nothing else is in the image, unreferenced functions are absent; unresolved "
+         "symbols, non-ELF .o, non-archive .a and missing files must exit 1.",
+         "Trusted: build_obj/build_ar/closure in pyprops/c20.py. Big-endian objects are unsupported by the importer: a "
+         "clean rejection (exit 1, no file) is accepted for them. Only global FUNC symbols with sizes and R_MIPS_26 "
+         "against globals are generated.", "DESIGN.md 3/C20"),
 }
 
 NOT_YET = "check not built yet (work in progress; see DESIGN.md section 3)"
